@@ -131,8 +131,12 @@ fn strategy() -> impl Strategy<Value = Case> {
 	cfg.max_side = 14;
 	cfg.heavy_payloads = false;
 	cfg.adverts = vec![Advert::Tight, Advert::Loose(1)];
-	(gen::set_spec(cfg), 0usize..5, proptest::option::of(any::<u32>()), 0usize..5, prop::bool::weighted(0.15), prop::bool::weighted(0.012)).prop_flat_map(|(mut spec, s, enc, t, chunky, big)| {
+	(gen::set_spec(cfg), 0usize..5, proptest::option::of(any::<u32>()), 0usize..5, prop::bool::weighted(0.15), prop::bool::weighted(0.012), proptest::option::weighted(0.2, (1u8..4, 10u32..300))).prop_flat_map(|(mut spec, s, enc, t, chunky, big, dups)| {
 		spec.pay = Pay::CoordText;
+		// few distinct payloads: containers store them once (shared byte ranges, PMTiles runs)
+		if let Some((variants, len)) = dups {
+			spec.pay = Pay::Dups { variants, len };
+		}
 		let chunky = chunky && !big;
 		if big {
 			// more than 16384 tiles on one level (PMTiles leaf directories, several versatiles blocks)
@@ -183,6 +187,7 @@ fn labels(case: &Case, exp: &BTreeMap<Coord, (Vec<u8>, Sel)>, obs: &mut Obs) {
 	obs.label_if(n_in > 0 && n_out > 0, "selection-cuts-coverage");
 	obs.label_if(n_in == 0, "nothing-selected");
 	obs.label_if(matches!(case.spec.pay, Pay::Random { .. }), "tiles-of-6-9KB");
+	obs.label_if(matches!(case.spec.pay, Pay::Dups { .. }), "few-distinct-payloads");
 	obs.label_if(exp.len() > 16384, "more-than-16384-tiles");
 	obs.label_if(n_in > 16384, "more-than-16384-tiles-selected");
 	obs.label_if(matches!(case.spec.pay, Pay::Random { .. }) && case.source == Target::Versatiles && n_in > 0 && n_out > 0, "versatiles-source-with-6-9KB-tiles-cut-by-the-selection");
